@@ -249,3 +249,10 @@ Proof.
   change (N.eqb V0_VERSION_BYTE DISPATCH_V0_VERSION) with true. cbn iota.
   rewrite (v0_payload_ok (encode (wire_tree w))). reflexivity.
 Qed.
+
+(* the hypothesis of anchored_without_hostname_false is satisfiable (a `||host^` rule's mask) *)
+Example anchored_mask_example :
+  mask_has (M_IS_HOSTNAME_ANCHOR + M_IS_RIGHT_ANCHOR + M_FROM_SCRIPT) M_IS_HOSTNAME_ANCHOR = true /\
+  check_pattern (fun _ _ _ _ => true) (M_IS_HOSTNAME_ANCHOR + M_IS_RIGHT_ANCHOR + M_FROM_SCRIPT) [] None = Ok false /\
+  check_pattern (fun _ _ _ _ => true) (M_IS_HOSTNAME_ANCHOR + M_IS_RIGHT_ANCHOR + M_FROM_SCRIPT) [] (Some (bs "ads.net")) = Ok true.
+Proof. vm_compute. repeat split; reflexivity. Qed.
